@@ -151,7 +151,10 @@ int main(int argc, char** argv) {
     std::string c;
     if (!ReadFile(p, &c)) { if (missing->empty()) *missing = p; return; }
     rd->emplace_back(p, c);
-    if (follow) for (auto& inc : Directives(c, "#include")) go(inc, follow, seen, rd, missing);
+    if (follow) {
+      for (auto& inc : Directives(c, "#include")) go(inc, follow, seen, rd, missing);
+      for (auto& inc : Directives(c, "#maybe")) { std::string c2; if (ReadFile(inc, &c2)) go(inc, follow, seen, rd, missing); }
+    }
   } };
   for (auto& p : reads) R::go(p, follow, &seen, &rd, &missing);
   std::string rsp_content;
